@@ -53,6 +53,21 @@ pub fn h_map_eq<K: Shape, V: Shape, const N: usize, const M: usize>() {
     kani::cover!(!r || N == 0 && M == 0, "reached unequal");
 }
 
+/// an operand compared with itself, for keys and values whose `==` is not reflexive: the answer is a
+/// function of the entries (false as soon as one entry is not equal to itself), never of object identity
+pub fn h_self_eq_nr<const N: usize>() {
+    let a: Map<Nr, Nr, N> = any_map();
+    let ma = model(&a);
+    let r = a == a;
+    assert!(r == ext_eq(&ma, &ma), "C14.eq: an operand compared with itself answers by its entries (non-reflexive ==), not by identity");
+    assert!((a != a) == !r, "C14.ne: the negation of eq");
+    let s: Set<Nr, N> = any_set();
+    let ms = smodel(&s);
+    assert!((s == s) == ext_eq(&ms, &ms), "C14.Set::eq: an operand compared with itself answers by its elements (non-reflexive ==), not by identity");
+    kani::cover!(r && ma.len > 0, "reached");
+    kani::cover!(!r, "reached unequal");
+}
+
 pub fn h_set_eq<T: Shape, const N: usize, const M: usize>() {
     let a: Set<T, N> = any_set();
     let b: Set<T, M> = any_set();
@@ -99,6 +114,8 @@ pub fn h_clone_from<K: Shape, V: Shape, const N: usize>() {
     let src: Set<K, N> = any_set();
     s.clone_from(&src);
     assert!(s == src && smodel(&s).wf() && s.len() == src.len(), "C15.Set::clone_from: equal to the source");
+    let qs: K = kani::any();
+    assert!(same_opt_pair(&smodel(&s).get(&qs), &smodel(&src).get(&qs)), "C15.Set::clone_from: the destination holds copies of the source's own elements (not its previous, merely equal ones)");
     kani::cover!(pre.len > 0 || N == 0, "reached");
 }
 
